@@ -93,3 +93,16 @@ func VerifHandle6(handlers []handler.Handler6, ifIndex int, datagram []byte, oob
 	l.HandleMsg6(b[:n], oob, peer)
 	return out
 }
+
+// VerifServe6 runs the real Serve loop of a DHCPv6 listener (not bound to an interface) around
+// handlers on the socket c, until c is closed. Replies go out on c.
+func VerifServe6(c net.PacketConn, handlers []handler.Handler6) error {
+	l := &listener6{PacketConn: ipv6.NewPacketConn(c), handlers: handlers}
+	return l.Serve()
+}
+
+// VerifServe4 is the DHCPv4 counterpart of VerifServe6
+func VerifServe4(c net.PacketConn, handlers []handler.Handler4) error {
+	l := &listener4{PacketConn: ipv4.NewPacketConn(c), handlers: handlers}
+	return l.Serve()
+}
